@@ -52,6 +52,30 @@ def check_roundtrip(mido, type_, tpb, specs, acc):
                       f'{(back.type, back.ticks_per_beat, len(back.tracks))}',
                       case)
         return data
+    # history: what load returned is the caller's - change it, load the same
+    # bytes again; saving twice gives the same bytes
+    try:
+        for t in back.tracks:
+            for m in t:
+                m.time = 4242
+        back2 = load_bytes(mido, data)
+        if [track_sigs(t) for t in back2.tracks] != want:
+            acc.violation('reload-after-mutation-differs',
+                          f'{short(case)}: loading the same bytes a second '
+                          f'time (after changing the first result) gave '
+                          f'{short([track_sigs(t) for t in back2.tracks], 300)}',
+                          case)
+            return data
+        if save_bytes(mf) != data:
+            acc.violation('second-save-differs',
+                          f'{short(case)}: saving the same file twice gave '
+                          f'different bytes', case)
+            return data
+        back = back2
+    except Exception as e:
+        acc.violation(f'reload-raises/{type(e).__name__}',
+                      f'{short(case)}: {e!r}', case)
+        return data
     for i, (got, exp) in enumerate(zip(back.tracks, want)):
         g = track_sigs(got)
         if g != exp:
